@@ -14,6 +14,7 @@ Models: QmcModel/Loop.lean (directed_loop.rs), QmcModel/Generic.lean (qmc_runner
 import QmcProofs.Loop
 import QmcProofs.LoopConsistent
 import QmcProofs.LoopSingleSite
+import QmcProofs.LoopNoPanic
 import QmcProofs.Generic
 import QmcProps.C16
 import QmcProps.C08
@@ -235,6 +236,30 @@ theorem loopUpdate_pres (w : Nat → List Bool → List Bool → Rat) (cfg : Con
     (loopUpdate w cfg rs).1.state.length = cfg.state.length ∧
     countOps (loopUpdate w cfg rs).1.slots = countOps cfg.slots :=
   ⟨loopUpdate_consistent w cfg rs hwf hc hcl, loopUpdate_pres_partial w cfg rs hwf hlegal⟩
+
+
+/-- **No modelled panic on legal input.** For non-negative weights, well-formed ops with at
+least one variable and strictly positive stored matrix elements, no branch of the model that
+stands for a panic of the implementation (`gen_range` on an empty range, `unwrap` on a missing
+node, `unwrap_err` of the exit fold, `unwrap` of the link) is ever taken — whatever the state,
+the script, and whether or not the world lines are periodic. -/
+theorem loopUpdate_no_panic (w : Nat → List Bool → List Bool → Rat) (hW : ∀ b i o, 0 ≤ w b i o)
+    (cfg : Config) (rs : RS) (hwf : WFSlots cfg.slots) (hlegal : LegalSlots w cfg.slots)
+    (hk : ∀ o, some o ∈ cfg.slots → o.vars ≠ []) (hp : rs.panicked = false) :
+    (loopUpdate w cfg rs).2.panicked = false :=
+  LoopC.loopUpdate_no_panic w hW cfg rs hwf hlegal hk hp
+
+/-- Hence on legal input the walk closes unless the script ran out (which the real, unbounded
+RNG never does): `LoopClosed ↔ ¬ short`, and a run whose script sufficed ends periodic. -/
+theorem loop_closed_iff_script_sufficed (w : Nat → List Bool → List Bool → Rat)
+    (hW : ∀ b i o, 0 ≤ w b i o) (cfg : Config) (rs : RS) (hwf : WFSlots cfg.slots)
+    (hlegal : LegalSlots w cfg.slots) (hk : ∀ o, some o ∈ cfg.slots → o.vars ≠ [])
+    (hp : rs.panicked = false) :
+    (LoopClosed (loopUpdate w cfg rs).2 ↔ (loopUpdate w cfg rs).2.short = false) ∧
+    (Consistent cfg → (loopUpdate w cfg rs).2.short = false → Consistent (loopUpdate w cfg rs).1) := by
+  have hnp := loopUpdate_no_panic w hW cfg rs hwf hlegal hk hp
+  refine ⟨⟨fun h => h.2, fun h => ⟨hnp, h⟩⟩, fun hc hs => ?_⟩
+  exact loopUpdate_consistent w cfg rs hwf hc ⟨hnp, hs⟩
 
 /-- What is known when the walk did NOT close: a flag is raised (the driver reports `PANIC` or
 `SHORT`, never `ok`), in particular when the fuel `script.length + 1` runs out; the partial
@@ -508,6 +533,13 @@ example : WFSlots wlCfg.slots ∧ LegalSlots wlW wlCfg.slots ∧ Consistent wlCf
     simp [wlOp, Op.diagonal, Op.WF]
   · intro o ho
     simp [wlW]
+
+/-- the remaining hypotheses of `loopUpdate_no_panic` hold for it as well -/
+example : (∀ b i o, 0 ≤ wlW b i o) ∧ (∀ o, some o ∈ wlCfg.slots → o.vars ≠ []) := by
+  refine ⟨fun _ _ _ => by simp [wlW], ?_⟩
+  intro o ho
+  simp [wlCfg] at ho; subst ho
+  simp [wlOp, Op.diagonal]
 
 example : (loopUpdate wlW wlCfg (RS.ofScript [0, 0, 0, 0, 0])).1
       = ⟨[true], [some (wlOp true), some (wlOp true)]⟩ ∧
